@@ -6,9 +6,10 @@ MenusAll == {MAll}
 \* generator menus: the bcrypt KDF is slow, so encrypted files get the classes that matter for them
 GPlain == [src |-> {"go", "keygen"}, kt |-> KeyTypes, enc |-> {"none"}, mode |-> {"nopass", "right"}, corr |-> AllCorr]
 GEnc   == [src |-> {"go", "keygen"}, kt |-> KeyTypes, enc |-> {"ctr"}, mode |-> Modes,
-           corr |-> {"none", "check", "padWrongByte", "outerPubOther", "seedMismatch", "nMismatch", "pointMismatch", "nkeys2", "cipherUnknown", "kdfUnknown", "roundsHuge", "trailing"}]
+           corr |-> {"none", "check", "padWrongByte", "outerPubOther", "seedMismatch", "nMismatch", "pointMismatch", "pointNegated", "pointShareY", "nkeys2", "cipherUnknown", "kdfUnknown", "roundsHuge", "trailing"}]
 GCbc   == [src |-> {"keygen"}, kt |-> {"ed25519", "rsa"}, enc |-> {"cbc"}, mode |-> Modes, corr |-> {"none", "check", "padWrongByte"}]
-MenusGenQ == {GPlain, [GEnc EXCEPT !.kt = {"ed25519", "ecdsa256", "rsa"}, !.corr = {"none", "check", "outerPubOther", "seedMismatch", "nMismatch", "pointMismatch", "cipherUnknown"}]}
+MenusGenQ == {GPlain, [GEnc EXCEPT !.kt = {"ed25519", "ecdsa256", "rsa"}, !.corr = {"none", "check", "outerPubOther", "seedMismatch", "nMismatch", "pointMismatch", "pointNegated", "cipherUnknown"}],
+              [src |-> {"go"}, kt |-> {"ecdsa384", "ecdsa521"}, enc |-> {"ctr"}, mode |-> {"right"}, corr |-> {"pointNegated", "pointShareY"}]}
 MenusGenT == {GPlain, GEnc, GCbc}
 Emit == Done => PrintT("TRACE " \o ToJson([f |-> f, res |-> res, want |-> Want(f)]))
 =============================================================================
